@@ -151,7 +151,8 @@ theorem delete_bytes {ir ir' : IR} {b off len : Nat} {px : Bool} {r : Option Nat
               · rename_i ir5 last hc
                 injection h with h; injection h with h1 h2; subst h1
                 apply bytes_after_edit (ir1 := ir3) _ hiv (cleanup_intervals hc)
-                rw [removeBlock_intervals hr3, splitBlock_intervals hs2, splitBlock_intervals hs1]
+                rw [removeBlock_intervals hr3, connectEmptyTail_intervals, splitBlock_intervals hs2,
+                  splitBlock_intervals hs1]
       · -- the whole block
         split at h
         · cases h
@@ -233,8 +234,10 @@ theorem insertSplit_intervals {ir ir' : IR} {b off repl e : Nat} {a : Bool}
         · cases h
         · rename_i i3 d3 hr
           injection h with h; injection h with h1 h2; subst h1
-          rw [removeBlock_intervals hr, splitBlock_intervals hs2, splitBlock_intervals hs1]
+          rw [removeBlock_intervals hr, connectEmptyTail_intervals, splitBlock_intervals hs2,
+            splitBlock_intervals hs1]
     · injection h with h; injection h with h1 h2; subst h1
+      rw [connectEmptyTail_intervals]
       exact splitBlock_intervals hs1
 
 /-- the patch's symbolic expressions are attached without touching any bytes -/
@@ -349,22 +352,22 @@ theorem insert_bytes {ir ir' : IR} {b off repl last : Nat} {p : Patch} {blk : Bl
                     · rename_i ir12 ho
                       have hc := cleanup_intervals h
                       simp only [bumpNext_intervals] at hc
+                      generalize hpc : (if blk.isCode then ir.matchPatchReturnEdges b p.cfg p.proxies else (p.cfg, p.proxies)).1
+                        = pcfgX at ho hc
                       -- the state right after the byte edit
-                      have h0 : (ir2.insertStitch p.text.blocks b endB added).intervals = ir.intervals := by
-                        rw [insertStitch_intervals, insertSplit_intervals hs, addReturnEdgesForPatchCalls_intervals]
-                      have hE := bytes_after_edit (ir2 := (ir2.insertStitch p.text.blocks b endB added).editInterval
-                        i (blk.off + off) repl p.text.data [b]) h0 hiv rfl
+                      have h0 : ((ir2.addReturnEdgesForPatchCalls pcfgX).1.insertStitch p.text.blocks b endB added).intervals
+                          = ir.intervals := by
+                        rw [insertStitch_intervals, addReturnEdgesForPatchCalls_intervals, insertSplit_intervals hs]
+                      have hE := bytes_after_edit (ir2 := ((ir2.addReturnEdgesForPatchCalls pcfgX).1.insertStitch p.text.blocks b
+                        endB added).editInterval i (blk.off + off) repl p.text.data [b]) h0 hiv rfl
                       -- everything after it keeps the bytes
                       have hK := addOthers_kept' ho
-                      have hmid : ∀ (c : List Edge) (px : List Nat) j, ((((((ir2.insertStitch p.text.blocks b endB added).editInterval i (blk.off + off) repl
-                          p.text.data [b]).placePatchBlocks p.text.blocks i (blk.off + off)).addPatchExprs i (blk.off + off)
+                      have hmid : ∀ (x : IR) (c : List Edge) (px : List Nat) j, ((((x.placePatchBlocks p.text.blocks i
+                          (blk.off + off)).addPatchExprs i (blk.off + off)
                           p.text.symExprs).orderInsertAfter sect b (p.text.blocks.map (·.id))).addPatchNodes p c px
-                          |>.addPatchAux p i (blk.off + off) |>.addPatchFunctions blk p.text.blocks).bytesOf j =
-                          ((ir2.insertStitch p.text.blocks b endB added).editInterval i (blk.off + off) repl
-                          p.text.data [b]).bytesOf j := by
-                        intro c px j
-                        rw [bytesOf_congr (by simp : _ = ((((ir2.insertStitch p.text.blocks b endB added).editInterval i
-                          (blk.off + off) repl p.text.data [b]).placePatchBlocks p.text.blocks i (blk.off + off)).addPatchExprs
+                          |>.addPatchAux p i (blk.off + off) |>.addPatchFunctions blk p.text.blocks).bytesOf j = x.bytesOf j := by
+                        intro x c px j
+                        rw [bytesOf_congr (by simp : _ = ((x.placePatchBlocks p.text.blocks i (blk.off + off)).addPatchExprs
                           i (blk.off + off) p.text.symExprs).intervals)]
                         rw [addPatchExprs_bytes]
                         exact bytesOf_congr (by simp) j
